@@ -30,6 +30,11 @@ RULE = ('cases = random subset and order of (Tags, Error, Volatile, Retry) passe
         'every call: callback trace (enter/exit/on_failure, model, state seen), result / exception type, every '
         'model\'s state and the identity of the object visible under each hook name (fresh = never observed before '
         'under any name on any model); is_<tag> of every state; the same history on the undecorated class.  '
+        'Decoration: one decorator or (30%) two stacked ones splitting the order, Timeout with timeout=0 as an inert '
+        'extra mix-in (30%); enter / exit recorders attached through the state definition, a model method named '
+        'on_<kind>_<state> and machine.on_<kind>_<state>(cb) in order; inert on_final / on_timeout callbacks attached '
+        'the same three ways on every class, their registration (helper present, registered callbacks) observed on the '
+        'decorated and the undecorated machine.  '
         'Non-trivial: construction succeeded and some call hit a mixin branch (Error raised, on_failure fired, a '
         'volatile object replaced, or a state entered while its hook name was occupied), distinct by hash of the case.')
 ASSUMPTIONS = ['callbacks do not raise; on_enter callbacks may trigger an event on their own model on an unqueued machine '
@@ -39,7 +44,10 @@ ASSUMPTIONS = ['callbacks do not raise; on_enter callbacks may trigger an event 
                'the order-independent specification (FeaturesSpec) and the oracle clauses on traces cover flat '
                'configurations; on state trees the model (FeaturesH) is compared with the implementation and the '
                'Volatile / Error / frame clauses are evaluated',
-               'Timeout mixin left out (C17)',
+               'Timeout only with timeout=0 (inert mix-in: callback kind on_timeout, no timers; C17 covers timers)',
+               'stacked decorators: at most one of them brings Tags (explicitly or through Error), so that the MRO is '
+               'outer arguments then inner arguments (otherwise C3 linearisation interleaves them)',
+               'on_final / on_timeout callbacks are inert: their registration is observed, their firing is C18 / C17',
                'object identity observed with all created objects kept alive (no id reuse); an object overwritten '
                'before the call returns is not observed']
 THEOREMS = ['C19_tags', 'C19_error_iff', 'C19_retry_spec', 'C19_retry_exact', 'C19_volatile',
@@ -49,12 +57,14 @@ THEOREMS = ['C19_tags', 'C19_error_iff', 'C19_retry_spec', 'C19_retry_exact', 'C
             'C19_hier_fresh', 'C19_volatile_refuted_nested', 'C19_dyn_static', 'C19_error_iff_dynamic',
             'C19_has_trigger_add', 'C19_has_trigger_remove', 'C19_error_dynamic', 'C19_retry_refuted_dynamic',
             'C19_retry_reentrant', 'C19_reentrant_static', 'C19_reentrant_prefix', 'C19_retry_reentrant_demo',
-            'C19_error_final_independent', 'C19_final_frame']
+            'C19_error_final_independent', 'C19_final_frame', 'C19_kinds_exact', 'C19_kinds_frame', 'C19_kinds_stack', 'C19_stack_inert',
+            'C19_kinds_example']
 
 TAGS = [0, 1, 2, 3, 4]
 HOOKS = [0, 1, 2]
 CLASSES = ['Machine', 'HierarchicalMachine', 'LockedMachine', 'LockedHierarchicalMachine']
 FT, FE, FV, FR = 0, 1, 2, 3
+FTO = 4       # Timeout with timeout=0: inert, not part of the model's order (C17 covers timers)
 
 
 def hook_name(h):
@@ -220,7 +230,31 @@ def gen(rng, i, tier):
                     cur.append(t)
                     out.append(['add'] + t)
         hist = out
-    case = dict(cls=cls, order=feats, states=states, trans=trans, ignore=rng.random() < 0.25,
+    # how the callbacks are attached, and the shape of the decoration
+    for s_ in states:
+        for kind in ('enter', 'exit'):
+            n = len(s_[kind])
+            if rng.random() < 0.5:
+                s_[kind + '_reg'] = [0] * n
+            else:
+                a = rng.randint(0, n)
+                b = min(n, a + rng.choice([0, 1]))
+                s_[kind + '_reg'] = [0] * a + [1] * (b - a) + [2] * (n - b)
+        s_['fin'] = [int(rng.random() < 0.35) for _ in range(3)]
+        s_['tmo'] = [int(rng.random() < 0.3) for _ in range(3)]
+    decor = [list(feats)]
+    if not malformed:
+        if rng.random() < 0.3:
+            decor[0].insert(rng.randrange(len(decor[0]) + 1), FTO)     # inert Timeout (timeout=0) somewhere in the MRO
+        if rng.random() < 0.3:
+            cut = rng.randint(0, len(decor[0]))
+            outer, inner = decor[0][:cut], decor[0][cut:]
+            # Error derives from Tags: when both decorators bring Tags (explicitly or through Error) Python's C3
+            # linearisation interleaves them (e.g. (Error, Volatile) over (Retry, Tags) gives Error, Retry, Tags,
+            # Volatile); the model's stack order is outer ++ inner, so such stacks are not generated
+            if not (set(outer) & {FT, FE} and set(inner) & {FT, FE}):
+                decor = [outer, inner]                                  # @add_state_features(outer) over (inner)
+    case = dict(cls=cls, order=feats, states=states, trans=trans, ignore=rng.random() < 0.25, decor=decor,
                 nmodels=nm, init=rng.randrange(ns), history=hist, tree=None, pre=[], clsattr=[], retrig=retrig)
     if nested:
         case['tree'] = dict(parent=parent, initial=initial)
@@ -340,7 +374,8 @@ def enc(case):
             bool(case['ignore']), case['nmodels'], case['init'], [enc_hist(hc) for hc in case['history']], TAGS, HOOKS,
             paths, inits, [list(x) for x in pre], [list(x) for x in cl], len(pre) + len(cl),
             [list(x) for x in case.get('retrig', [])],
-            [s['id'] for s in build_order(case) if s.get('final')]]
+            [s['id'] for s in build_order(case) if s.get('final')],
+            [list(a) for a in (case.get('decor') or [case['order']])], 'Hierarchical' in case['cls']]
 
 
 # ------------------------------------------------------------------ implementation side
@@ -365,21 +400,14 @@ def _exc_code(tr, ex):
 def _run_machine(tr, case, decorated):
     from transitions import extensions as ext
     from transitions.extensions import states as S
-    feats = {FT: S.Tags, FE: S.Error, FV: S.Volatile, FR: S.Retry}
+    feats = {FT: S.Tags, FE: S.Error, FV: S.Volatile, FR: S.Retry, FTO: S.Timeout}
     base = tr.Machine if case['cls'] == 'Machine' else getattr(ext, case['cls'])
     nested = bool(case.get('tree'))
     log = []
     pre, cl = case.get('pre', []), case.get('clsattr', [])
     objs = [Preset() for _ in range(len(pre) + len(cl))]      # identities 0..k-1 exist before the first event
     models = []
-    for mi in range(case['nmodels']):
-        attrs = {hook_name(h): objs[o] for m, h, o in cl if m == mi}
-        mo = type('Mo%d' % mi, (object,), attrs)()
-        for m, h, o in pre:
-            if m == mi:
-                setattr(mo, hook_name(h), objs[o])
-        models.append(mo)
-    mid = {id(m): i for i, m in enumerate(models)}
+    mid = {}
     name_id = {full_name(case, s['id']): s['id'] for s in case['states']}
 
     def state_int(model):
@@ -402,8 +430,51 @@ def _run_machine(tr, case, decorated):
     par = _parent(case)
     ini = dict((a, b) for a, b in case['tree']['initial']) if nested else {}
 
+    # callbacks attached the dynamic way: a model method named on_<kind>_<state> (picked up when the model is added)
+    # and machine.on_<kind>_<state>(callback) after construction; enter/exit recorders are split over the three
+    # ways in order, on_final / on_timeout get inert callbacks whose REGISTRATION is observed
+    conv = {}
+    for s in case['states']:
+        full = full_name(case, s['id'])
+        for kind, k in (('enter', 1), ('exit', 0)):
+            for c, way in zip(s[kind], s.get(kind + '_reg') or []):
+                if way == 1:
+                    conv['on_%s_%s' % (kind, full)] = (lambda self, ed, _f=rec(k, c): _f(ed))
+        for kind, key in (('on_final', 'fin'), ('on_timeout', 'tmo')):
+            if (s.get(key) or [0, 0, 0])[1]:
+                conv['%s_%s' % (kind, full)] = (lambda self, *a: None)
+    for mi in range(case['nmodels']):
+        attrs = {hook_name(h): objs[o] for m, h, o in cl if m == mi}
+        attrs.update(conv)
+        mo = type('Mo%d' % mi, (object,), attrs)()
+        for m, h, o in pre:
+            if m == mi:
+                setattr(mo, hook_name(h), objs[o])
+        models.append(mo)
+    mid.update({id(m): i for i, m in enumerate(models)})
+    has_tmo = FTO in [f for args in (case.get('decor') or [case['order']]) for f in args]
+    hier = 'Hierarchical' in case['cls']
+
+    def fd(*a):
+        pass
+
+    def fh(*a):
+        pass
+
+    def given(s, kind):
+        reg = s.get(kind + '_reg') or [0] * len(s[kind])
+        return [c for c, way in zip(s[kind], reg) if way == 0]
+
     def sdef(s):
-        d = dict(name='s%d' % s['id'], on_enter=[rec(1, c) for c in s['enter']], on_exit=[rec(0, c) for c in s['exit']])
+        d = dict(name='s%d' % s['id'], on_enter=[rec(1, c) for c in given(s, 'enter')],
+                 on_exit=[rec(0, c) for c in given(s, 'exit')])
+        if hier and (s.get('fin') or [0])[0]:
+            d['on_final'] = [fd]
+        if decorated and has_tmo:
+            if (s.get('tmo') or [0])[0]:
+                d['on_timeout'] = [fd]
+            if s['id'] % 2:
+                d['timeout'] = 0
         if s.get('final'):
             d['final'] = True
         if decorated:
@@ -429,17 +500,22 @@ def _run_machine(tr, case, decorated):
 
     sdefs = [sdef(s) for s in case['states'] if par[s['id']] is None]
     try:
+        class M(base):
+            pass
         if decorated:
-            @S.add_state_features(*[feats[f] for f in case['order']])
-            class M(base):
-                pass
-        else:
-            class M(base):
-                pass
+            # stacked decorators: the innermost (last) one is applied first
+            for args in reversed(case.get('decor') or [case['order']]):
+                M = S.add_state_features(*[feats[f] for f in args])(M)
         machine = M(model=models, states=sdefs, initial=full_name(case, case['init']), auto_transitions=False,
                     send_event=True, ignore_invalid_triggers=case['ignore'])
         for e, s, d in case['trans']:
             machine.add_transition('e%d' % e, full_name(case, s), None if d is None else full_name(case, d))
+        for s in case['states']:
+            full = full_name(case, s['id'])
+            for kind, k in (('enter', 1), ('exit', 0)):
+                for c, way in zip(s[kind], s.get(kind + '_reg') or []):
+                    if way == 2:
+                        getattr(machine, 'on_%s_%s' % (kind, full))(rec(k, c))
     except (TypeError, AttributeError, ValueError) as ex:
         return None, [1, _exc_code(tr, ex)]
 
@@ -454,6 +530,23 @@ def _run_machine(tr, case, decorated):
                 except AttributeError:
                     row.append([])
             table.append(row)
+
+    reg = []
+    for s in build_order(case):
+        full = full_name(case, s['id'])
+        st = machine.get_state(full)
+        row = []
+        for kind, key in (('on_final', 'fin'), ('on_timeout', 'tmo')):
+            name = '%s_%s' % (kind, full)
+            if (s.get(key) or [0, 0, 0])[2]:
+                try:
+                    getattr(machine, name)(fh)
+                except AttributeError:
+                    pass
+            labels = [2 if cb is fh else 0 if cb is fd else 1 if cb == name else 9
+                      for cb in (getattr(st, kind, None) or [])]
+            row.append([bool(hasattr(machine, name)), labels])
+        reg.append(row)
 
     def ident(o):
         for i, x in enumerate(objs):
@@ -486,7 +579,7 @@ def _run_machine(tr, case, decorated):
                 hk.append([] if o is None else [ident(o)])
             snap.append([state_int(mo), hk])
         steps.append([[list(x) for x in log], res, snap])
-    return (table, steps), None
+    return (table, steps, reg), None
 
 
 def impl_features(case):
@@ -497,9 +590,31 @@ def impl_features(case):
     plain, perr = _run_machine(tr, case, False)
     if perr is not None:
         return {'harness_error': 'undecorated machine could not be built: %r' % (perr,)}
-    table, steps = dec
+    table, steps, reg = dec
     psteps = [[items, res, [[st, []] for st, _ in snap]] for items, res, snap in plain[1]]
-    return [1, [0, table, steps, psteps]]
+    return [1, [0, table, steps, psteps, [reg, plain[2]]]]
+
+
+def expected_reg(case, avail=None):
+    """callback kinds beyond enter/exit: [helper machine.on_<kind>_<state> exists, registered callbacks in order:
+    0 given in the state definition, 1 the model method on_<kind>_<state>, 2 added through the helper] per state
+    for on_final (kind of the hierarchical state class) and on_timeout (kind of the Timeout mix-in), on the
+    decorated and on the undecorated machine"""
+    hier = 'Hierarchical' in case['cls']
+    has_tmo = FTO in [f for args in (case.get('decor') or [case['order']]) for f in args]
+    if avail is None:        # [[on_final, on_timeout] decorated, the same undecorated]; the model prints its own
+        avail = [[hier, has_tmo], [hier, False]]
+    out = []
+    for av in avail:
+        tab = []
+        for s in build_order(case):
+            row = []
+            for key, a in zip(('fin', 'tmo'), av):
+                fl = s.get(key) or [0, 0, 0]
+                row.append([bool(a), [w for w in (0, 1, 2) if fl[w]] if a else []])
+            tab.append(row)
+        out.append(tab)
+    return out
 
 
 # ------------------------------------------------------------------ the property's clauses on an observation
@@ -640,8 +755,12 @@ def check_clauses(case, obs, info=None):
     bad = []
     if not isinstance(obs, list) or obs[0] != 1 or obs[1][0] != 0:
         return bad
+    if len(obs[1]) >= 5 and obs[1][4] != expected_reg(case):
+        # "leave all other behaviour of the machine unchanged": the machine's own callback kinds (on_final of the
+        # hierarchical state class) and those of every decorator in a stack (on_timeout) stay available
+        bad.append(('C19_frame', 'callback kinds [decorated, undecorated]: %r expected %r' % (obs[1][4], expected_reg(case)), {}))
     if case.get('retrig'):
-        return check_reentrant(case, obs)
+        return bad + check_reentrant(case, obs)
     _, table, steps, psteps = obs[1][:4]
     sd = _sd(case)
     h = _has(case)
@@ -849,7 +968,9 @@ def canon(case, obs):
                     row.append(list(v))
             sn.append([st, row])
         steps.append([items, res, sn])
-    return [obs[0], [0, obs[1][1], steps, obs[1][3]]]
+    # the model prints which callback kinds the decorated / undecorated state class has (FeaturesKinds)
+    reg = expected_reg(case, obs[1][6]) if len(obs[1]) == 7 else obs[1][4] if len(obs[1]) == 5 else None
+    return [obs[0], [0, obs[1][1], steps, obs[1][3]] + ([reg] if reg is not None else [])]
 
 
 def extra_checks(tier, seed):
@@ -868,7 +989,7 @@ def extra_checks(tier, seed):
     for c, m in zip(cases, mo):
         if m[0] != 1 or m[1][0] != 0:
             continue
-        _, table, steps, psteps, ssteps, hsteps = m[1]
+        _, table, steps, psteps, ssteps, hsteps = m[1][:6]
         if c.get('tree'):
             continue                       # the order-independent specification covers flat configurations
         checked += 1
